@@ -137,8 +137,9 @@ def r3(ctx, retsets):
         ctx.touch(f)
 
         def classify(inst, E, st):
-            if inst.op == "call" and inst.callee in ("pthread_rwlock_rdlock", "pthread_rwlock_wrlock"):
-                return ["acq"]
+            if inst.op == "call" and inst.callee in ("pthread_rwlock_rdlock", "pthread_rwlock_wrlock") and \
+                    vf.root_of(vf.expr(f, inst.args[0])) == ("arg", 0):
+                return ["acq"]      # the lock of the table that is read (a copy also locks its destination, entry by entry)
             return None
         outs, fl = es.count_effects(f, pdb, classify, retsets)
         worst = max((o["counts"].get("acq", 0) for o in outs), default=0)
